@@ -353,6 +353,22 @@ impl<'ast, 'res> Resolver<'ast, 'res> {
     fn check_assign_index(&mut self, target: ExprRef<'ast>, expr: ExprRef<'ast>) {
         self.check_expr(target);
         self.check_expr(expr);
+        // The runtime can only write through a variable, so the index chain must start at one.
+        let mut base = target;
+        while let Expr::Index { array, .. } = base {
+            base = array;
+        }
+        if !matches!(base, Expr::Var(..)) {
+            let span = base.span();
+            self.emit_error(
+                span,
+                SemanticError::TypeMismatch,
+                vec![Label {
+                    span,
+                    message: ArenaCow::Borrowed("Index assignment must start from variable"),
+                }],
+            );
+        }
         if let Some(local_id) = self.expr_root_local(target) {
             self.record_stmt_read(local_id);
             self.record_stmt_write(local_id);
@@ -922,9 +938,18 @@ impl<'ast, 'res> Resolver<'ast, 'res> {
                     }
                 }
             }
-            Expr::Member { object, .. } => {
-                // We don't track precise receiver types, so validation is deferred to runtime
+            Expr::Member { object, span, .. } => {
+                // Method calls are handled by the call arm below, so a member expression that
+                // reaches this point is not being called and the runtime cannot evaluate it.
                 self.check_expr(object);
+                self.emit_error(
+                    *span,
+                    SemanticError::TypeMismatch,
+                    vec![Label {
+                        span: *span,
+                        message: ArenaCow::Borrowed("Dis method need `()` to call am"),
+                    }],
+                );
             }
             Expr::Call { callee, args, span } => {
                 // Check the callee expression
@@ -1103,7 +1128,18 @@ impl<'ast, 'res> Resolver<'ast, 'res> {
                             }
                         }
                     }
-                    _ => self.check_expr(callee),
+                    _ => {
+                        // Only names and members can be called
+                        self.check_expr(callee);
+                        self.emit_error(
+                            *span,
+                            SemanticError::TypeMismatch,
+                            vec![Label {
+                                span: *span,
+                                message: ArenaCow::Borrowed("Dis expression no be function"),
+                            }],
+                        );
+                    }
                 }
 
                 // Check all arguments
